@@ -77,6 +77,156 @@ func init() {
 
 var consensusPkgs = []string{"app", "identity", "data/...", "action/...", "event", "storage", "vm", "utils", "serialize", "external_apps/..."}
 
+// ---- T2: micro-translator for arithmetic leaves. For a (function, variable) target the last
+// assignment with exactly that one identifier on the left is translated into a Lean definition
+// over Int with Go's semantics (truncating division and remainder, integer conversions dropped,
+// i.e. no overflow): the Lean side proves that the hand-written model's formula IS this one.
+type arithTarget struct {
+	fn, lhs, name string
+	lean          string // the generated definition, or a comment saying why there is none
+	found         bool
+}
+
+var arithTargets = []arithTarget{
+	{fn: "data/ethereum.Tracker.Finalized", lhs: "num", name: "trackerFinalizedNum"},
+	{fn: "data/ethereum.Tracker.Failed", lhs: "num", name: "trackerFailedNum"},
+	{fn: "identity.ValidatorStore.ExecuteAllegationTracker", lhs: "requiredVotesCount", name: "allegRequired"},
+	{fn: "identity.ValidatorStore.ExecuteAllegationTracker", lhs: "guilty", name: "allegGuilty"},
+	{fn: "identity.ValidatorStore.ExecuteAllegationTracker", lhs: "innocent", name: "allegInnocent"},
+	{fn: "data/governance.ProposalVoteStore.ResultSoFar", lhs: "passed", name: "govPassed"},
+	{fn: "data/governance.ProposalVoteStore.ResultSoFar", lhs: "failed", name: "govFailed"},
+	{fn: "data/rewards.RewardCalculator.getCycleNo", lhs: "cycleNo", name: "rewardCycleNo"},
+	{fn: "data/rewards.RewardCalculator.getCycleNo", lhs: "firstInCycle", name: "rewardFirstInCycle"},
+	{fn: "data/rewards.RewardCalculator.getCycleNo", lhs: "lastInCycle", name: "rewardLastInCycle"},
+}
+
+type arithCtx struct {
+	params []string
+	seen   map[string]bool
+	err    string
+}
+
+func (c *arithCtx) param(n string) string {
+	n = strings.NewReplacer(".", "_", "(", "_", ")", "", " ", "", "[", "_", "]", "", "*", "").Replace(n)
+	if !c.seen[n] {
+		c.seen[n] = true
+		c.params = append(c.params, n)
+	}
+	return n
+}
+
+func plain(e ast.Expr) string {
+	var b bytes.Buffer
+	printer.Fprint(&b, token.NewFileSet(), e)
+	return b.String()
+}
+
+// expr translates e; isBool reports whether the result is a Bool.
+func (c *arithCtx) expr(e ast.Expr) (out string, isBool bool) {
+	switch x := e.(type) {
+	case *ast.ParenExpr:
+		return c.expr(x.X)
+	case *ast.BasicLit:
+		if x.Kind == token.INT {
+			return x.Value, false
+		}
+	case *ast.Ident:
+		return c.param(x.Name), false
+	case *ast.SelectorExpr:
+		return c.param(plain(x)), false
+	case *ast.CallExpr:
+		if id, ok := x.Fun.(*ast.Ident); ok && len(x.Args) == 1 {
+			switch id.Name {
+			case "int", "int8", "int16", "int32", "int64", "uint", "uint8", "uint16", "uint32", "uint64":
+				return c.expr(x.Args[0])
+			case "len":
+				return c.param("len_" + plain(x.Args[0])), false
+			}
+		}
+	case *ast.BinaryExpr:
+		a, ab := c.expr(x.X)
+		b, bb := c.expr(x.Y)
+		switch x.Op {
+		case token.ADD, token.SUB, token.MUL:
+			if !ab && !bb {
+				return "(" + a + " " + x.Op.String() + " " + b + ")", false
+			}
+		case token.QUO:
+			if !ab && !bb {
+				return "(Int.tdiv " + a + " " + b + ")", false
+			}
+		case token.REM:
+			if !ab && !bb {
+				return "(Int.tmod " + a + " " + b + ")", false
+			}
+		case token.GTR, token.GEQ, token.LSS, token.LEQ:
+			if !ab && !bb {
+				op := map[token.Token]string{token.GTR: ">", token.GEQ: "≥", token.LSS: "<", token.LEQ: "≤"}[x.Op]
+				return "(decide (" + a + " " + op + " " + b + "))", true
+			}
+		case token.EQL, token.NEQ:
+			if ab == bb {
+				op := map[token.Token]string{token.EQL: "==", token.NEQ: "!="}[x.Op]
+				return "(" + a + " " + op + " " + b + ")", true
+			}
+		case token.LAND, token.LOR:
+			if ab && bb {
+				op := map[token.Token]string{token.LAND: "&&", token.LOR: "||"}[x.Op]
+				return "(" + a + " " + op + " " + b + ")", true
+			}
+		}
+	}
+	if c.err == "" {
+		c.err = "unsupported expression: " + plain(e)
+	}
+	return "0", false
+}
+
+func (t *arithTarget) translate(fd *ast.FuncDecl) {
+	var rhs ast.Expr
+	ast.Inspect(fd.Body, func(n ast.Node) bool {
+		if as, ok := n.(*ast.AssignStmt); ok && len(as.Lhs) == 1 && len(as.Rhs) == 1 {
+			if id, ok := as.Lhs[0].(*ast.Ident); ok && id.Name == t.lhs {
+				rhs = as.Rhs[0]
+			}
+		}
+		return true
+	})
+	if rhs == nil {
+		return
+	}
+	t.found = true
+	c := &arithCtx{seen: map[string]bool{}}
+	body, isBool := c.expr(rhs)
+	if c.err != "" {
+		t.lean = fmt.Sprintf("-- %s.%s: %s\n", t.fn, t.lhs, c.err)
+		return
+	}
+	typ := "Int"
+	if isBool {
+		typ = "Bool"
+	}
+	ps := ""
+	if len(c.params) > 0 {
+		ps = " (" + strings.Join(c.params, " ") + " : Int)"
+	}
+	t.lean = fmt.Sprintf("/-- `%s`, variable `%s`: `%s` -/\ndef %s%s : %s := %s\n", t.fn, t.lhs, strings.Join(strings.Fields(plain(rhs)), " "), t.name, ps, typ, body)
+}
+
+func arithLean() string {
+	var sb strings.Builder
+	sb.WriteString("-- GENERATED by /verif/extract from /repo's working tree: do not edit.\n-- Arithmetic leaves translated from the Go source (Go integer semantics over Int, no overflow).\nnamespace OLP.Gen.Arith\n\n")
+	for _, t := range arithTargets {
+		if !t.found {
+			sb.WriteString(fmt.Sprintf("-- %s.%s: no assignment found (the obligation that names `%s` breaks)\n\n", t.fn, t.lhs, t.name))
+			continue
+		}
+		sb.WriteString(t.lean + "\n")
+	}
+	sb.WriteString("end OLP.Gen.Arith\n")
+	return sb.String()
+}
+
 func render(fset *token.FileSet, n ast.Node) string {
 	var b bytes.Buffer
 	printer.Fprint(&b, fset, n)
@@ -331,12 +481,15 @@ func main() {
 	key := treeHash(*repo) + hex.EncodeToString(sh[:4])
 	stamp := filepath.Join(*out, ".facts.stamp")
 	if b, err := ioutil.ReadFile(stamp); err == nil && string(b) == key {
-		if _, err := os.Stat(filepath.Join(*out, "Facts.lean")); err == nil {
+		_, err1 := os.Stat(filepath.Join(*out, "Facts.lean"))
+		_, err2 := os.Stat(filepath.Join(*out, "Arith.lean"))
+		if err1 == nil && err2 == nil {
 			fmt.Println("facts: up to date")
 			return
 		}
 	}
 	os.Remove(filepath.Join(*out, "Facts.lean"))
+	os.Remove(filepath.Join(*out, "Arith.lean"))
 	os.Remove(stamp)
 	cfg := &packages.Config{Mode: packages.NeedName | packages.NeedFiles | packages.NeedSyntax | packages.NeedTypes | packages.NeedTypesInfo | packages.NeedImports | packages.NeedDeps,
 		Dir: *repo, Env: append(os.Environ(), "GOFLAGS=-mod=mod", "GOPROXY=off", "GOSUMDB=off", "GOTOOLCHAIN=local"), Tests: false}
@@ -376,6 +529,11 @@ func main() {
 					fn = strings.TrimPrefix(render(pkg.Fset, fd.Recv.List[0].Type), "*") + "." + fn
 				}
 				qfn := short + "." + fn
+				for ti := range arithTargets {
+					if arithTargets[ti].fn == qfn {
+						arithTargets[ti].translate(fd)
+					}
+				}
 				if pinnedFns[qfn] {
 					var b bytes.Buffer
 					printer.Fprint(&b, pkg.Fset, &ast.FuncDecl{Name: fd.Name, Recv: fd.Recv, Type: fd.Type, Body: fd.Body})
@@ -832,6 +990,10 @@ func main() {
 	sb.WriteString(norm("app.App.Prepare").lean("prepareSetters", "String", str))
 	sb.WriteString("end OLP.Gen\n")
 	os.MkdirAll(*out, 0755)
+	if err := ioutil.WriteFile(filepath.Join(*out, "Arith.lean"), []byte(arithLean()), 0644); err != nil {
+		fmt.Fprintln(os.Stderr, err)
+		os.Exit(1)
+	}
 	if err := ioutil.WriteFile(filepath.Join(*out, "Facts.lean"), []byte(sb.String()), 0644); err != nil {
 		fmt.Fprintln(os.Stderr, err)
 		os.Exit(1)
